@@ -313,6 +313,39 @@ func (r *Result) Absorb(o *Result) {
 	}
 }
 
+// Import copies, from the finished rule run of another property, the obligations and findings of the
+// rules selected by keep: rules that are necessary conditions of this property as well (the table and the
+// argument per entry are in checks/support.go). Findings that are listed as known findings of the other
+// property are not repeated here. Imported rules keep their names; the construct is prefixed with the
+// property the rule comes from so that a finding stays traceable to the check that owns the rule.
+func (r *Result) Import(o *Result, keep func(rule, construct string) bool) (nOb, nFind, nKnown int) {
+	o.flushGroups()
+	known, _ := loadKnown()
+	tag := "[" + o.Property + "] "
+	for _, ob := range o.Obligations {
+		if keep(ob.Rule, ob.Construct) {
+			ob.Construct = tag + ob.Construct
+			r.Obligations = append(r.Obligations, ob)
+			nOb++
+		}
+	}
+	for _, f := range o.Findings {
+		if !keep(f.Rule, f.Construct) {
+			continue
+		}
+		if _, ok := known[f.Key()]; ok {
+			nKnown++
+			continue
+		}
+		r.Findings = append(r.Findings, Finding{Property: r.Property, Rule: f.Rule, Construct: tag + f.Construct, Pos: f.Pos, Msg: f.Msg})
+		nFind++
+	}
+	for _, m := range o.infra {
+		r.Infra("[%s] %s", o.Property, m)
+	}
+	return
+}
+
 // GroupOb records an obligation that belongs to a group of instances of one
 // construct (e.g. all corpus fields expanded from the same template branch).
 // Failing members are reported as ONE finding per (rule, group) that lists how
